@@ -712,3 +712,234 @@ func c09r11(c *RC) {
 	n := shadowedErrorResult(c, fns, "shadowed-error-leaves-its-scope")
 	c.Note("shadowing error definitions examined: %d", n)
 }
+
+// c17r9: a pump loop ends exactly at end-of-stream.  An unconditional loop
+// that reads from a sliceio.Reader (or ReadFull) and leaves through
+// `if <cond on that read's error> { break }` (or a return with a nil error)
+// must leave when the error is the end-of-stream sentinel and must not leave
+// when it is nil: the other way round, only the first batch is moved (the
+// existing tests move one batch per task) or the loop spins at the end.
+func c17r9(c *RC) {
+	pr := c.P
+	n := 0
+	for _, fn := range readerFuncs(pr) {
+		if fn.Body == nil {
+			continue
+		}
+		idx := 0
+		inspectNoLit(fn.Body, func(nd ast.Node) bool {
+			loop, ok := nd.(*ast.ForStmt)
+			if !ok || loop.Cond != nil || loop.Init != nil || loop.Post != nil {
+				return true
+			}
+			// the read, a direct child of the body
+			errName := ""
+			for _, st := range loop.Body.List {
+				as, ok := st.(*ast.AssignStmt)
+				if !ok || len(as.Rhs) != 1 || len(as.Lhs) != 2 {
+					continue
+				}
+				k, ok := ast.Unparen(as.Rhs[0]).(*ast.CallExpr)
+				if !ok {
+					continue
+				}
+				if isReaderRead(pr, fn.Pkg, k) || fn.Pkg.CalleeName(k) == "sliceio.ReadFull" {
+					errName = expr(as.Lhs[1])
+				}
+			}
+			if errName == "" || errName == "_" {
+				return true
+			}
+			for _, st := range loop.Body.List {
+				ifs, ok := st.(*ast.IfStmt)
+				if !ok || ifs.Init != nil || len(ifs.Body.List) == 0 {
+					continue
+				}
+				if _, tested := errTestNames(ifs.Cond)[errName]; !tested {
+					continue
+				}
+				leaves := false
+				switch last := ifs.Body.List[len(ifs.Body.List)-1].(type) {
+				case *ast.BranchStmt:
+					leaves = last.Tok == token.BREAK && last.Label == nil
+				case *ast.ReturnStmt:
+					if len(last.Results) > 0 && expr(last.Results[len(last.Results)-1]) == "nil" {
+						leaves = true
+					}
+				}
+				if !leaves {
+					continue
+				}
+				idx++
+				n++
+				vNil, ok0 := evalCond(ifs.Cond, func(e ast.Expr) (bool, bool) { return errAtom(e, errName, 0) })
+				vEOF, ok1 := evalCond(ifs.Cond, func(e ast.Expr) (bool, bool) { return errAtom(e, errName, 1) })
+				c.Check(ok0 && ok1 && !vNil && vEOF, fmt.Sprintf("%s|pump-ends-exactly-at-EOF#%d", fn.QName(), idx), pr.Pos(ifs.Pos()), "the loop that moves batches from a reader leaves when the read succeeded (or does not leave at end-of-stream): only the first batch is moved and the rest silently dropped, or the loop never ends")
+			}
+			return true
+		})
+	}
+	c.Floor("pump loops", n, 8)
+}
+
+// oncePerIteration: on every path through one iteration of loop (from the
+// start of its body to its post statement / header), isEvent fires exactly
+// once.  Paths that leave the function are exempt.
+func oncePerIteration(fl *Flow, loop *ast.ForStmt, isEvent func(ast.Node) bool) (bool, []string, string) {
+	var start Loc
+	found := false
+	for _, b := range fl.G.Blocks {
+		if b.Live && b.Stmt == ast.Stmt(loop) && b.Kind == cfg.KindForBody {
+			start, found = Loc{b, 0}, true
+		}
+	}
+	if !found {
+		return false, nil, "loop body not found in the flow graph"
+	}
+	good := true
+	var trail []string
+	why := ""
+	fl.Walk(start, "0", nil, Visitor{NoFacts: true,
+		Node: func(nd ast.Node, st string, s *Step) (string, bool) {
+			if !good {
+				return st, true
+			}
+			if isEvent(nd) {
+				if st != "0" {
+					good, trail, why = false, s.Trail(), "twice"
+					return st, true
+				}
+				return "1", false
+			}
+			return st, false
+		},
+		Enter: func(from, to *cfg2Block, st string, s *Step) (string, bool) {
+			if to.Stmt == ast.Stmt(loop) && (to.Kind == cfg.KindForPost || to.Kind == cfg.KindForLoop || to.Kind == cfg.KindForDone) {
+				if to.Kind != cfg.KindForDone && st != "1" && good {
+					good, trail, why = false, s.Trail(), "not at all"
+				}
+				return st, true
+			}
+			return st, false
+		}})
+	return good, trail, why
+}
+
+// c05r9: the worker finds the producer of dependency task k at position k of
+// the request's location list.  The driver appends one location per
+// dependency task, in dependency order; the worker walks the same nesting
+// and must consume exactly one position per dependency task, whichever way it
+// ends up reading that task (local store, remote machine, combiner).
+func c05r9(c *RC) {
+	pr := c.P
+	n := 0
+	for _, fn := range pr.FuncsIn("exec") {
+		if fn.Body == nil || fn.Parent != nil {
+			continue
+		}
+		// driver side: appends to taskRunRequest.Locations
+		isAppendLoc := func(nd ast.Node) bool {
+			as, ok := nd.(*ast.AssignStmt)
+			if !ok || len(as.Lhs) != 1 || len(as.Rhs) != 1 {
+				return false
+			}
+			sel, ok := as.Lhs[0].(*ast.SelectorExpr)
+			if !ok || pr.fieldQName(fn.Pkg.FieldOf(sel)) != "exec.taskRunRequest.Locations" {
+				return false
+			}
+			k, ok := as.Rhs[0].(*ast.CallExpr)
+			return ok && expr(k.Fun) == "append" && len(k.Args) == 2
+		}
+		// worker side: the variable passed to (*taskRunRequest).location
+		idxVar := ""
+		for _, k := range callsIn(fn.Body) {
+			if fn.Pkg.CalleeName(k) == "exec.(*taskRunRequest).location" && len(k.Args) == 1 {
+				idxVar = nospace(k.Args[0])
+			}
+		}
+		isInc := func(nd ast.Node) bool {
+			s, ok := nd.(*ast.IncDecStmt)
+			return ok && s.Tok == token.INC && idxVar != "" && nospace(s.X) == idxVar
+		}
+		var loops []*ast.ForStmt
+		inspectNoLit(fn.Body, func(nd ast.Node) bool {
+			l, ok := nd.(*ast.ForStmt)
+			if !ok || l.Cond == nil {
+				return true
+			}
+			// a loop over the tasks of a dependency: bounded by <dep>.NumTask()
+			overTasks := nodeHas(l.Cond, func(m ast.Node) bool {
+				k, ok := m.(*ast.CallExpr)
+				return ok && strings.HasSuffix(fn.Pkg.CalleeName(k), ".NumTask")
+			})
+			if !overTasks {
+				return true
+			}
+			has := false
+			inspectNoLit(l.Body, func(m ast.Node) bool {
+				if isAppendLoc(m) || isInc(m) {
+					has = true
+				}
+				return true
+			})
+			if has || idxVar != "" {
+				loops = append(loops, l)
+			}
+			return true
+		})
+		if len(loops) == 0 {
+			continue
+		}
+		fl := pr.Flow(fn)
+		for i, l := range loops {
+			n++
+			ev := isAppendLoc
+			what := "appends one location"
+			if idxVar != "" {
+				ev = isInc
+				what = "consumes one position of the location list (" + idxVar + "++)"
+			}
+			good, trail, why := oncePerIteration(fl, l, ev)
+			c.Check(good, fmt.Sprintf("%s|one-location-per-dependency-task#%d", fn.QName(), i+1), pr.Pos(l.Pos()), "an iteration over the tasks of a dependency "+what+" "+why+" instead of exactly once: from then on the worker looks for every later dependency task on the machine of its neighbour, and reads another task's partition (or fails to find it)", trail...)
+		}
+		// the position is read before it is consumed
+		if idxVar != "" {
+			ord := 0
+			for _, k := range callsIn(fn.Body) {
+				if fn.Pkg.CalleeName(k) != "exec.(*taskRunRequest).location" {
+					continue
+				}
+				ord++
+				st := enclosingStmt(fn.Body, k)
+				blk := enclosingBlock(fn.Body, st)
+				next := false
+				okN := false
+				for _, s2 := range blk {
+					if next {
+						okN = isInc(s2)
+						break
+					}
+					if s2 == st {
+						next = true
+					}
+				}
+				n++
+				c.Check(okN, fn.QName()+"|position-consumed-right-after-use#"+itoa(ord), pr.Pos(k.Pos()), "the location of a dependency task is looked up at "+idxVar+" but the position is not consumed by the very next statement: the lookup and the count can drift apart")
+			}
+		}
+	}
+	c.Floor("loops over dependency tasks that carry locations", n, 5)
+}
+
+func enclosingStmt(root ast.Node, n ast.Node) ast.Stmt {
+	var best ast.Stmt
+	for _, p := range pathTo(root, n) {
+		if s, ok := p.(ast.Stmt); ok {
+			if _, isBlock := s.(*ast.BlockStmt); !isBlock {
+				best = s
+			}
+		}
+	}
+	// the innermost simple statement that contains n
+	return best
+}
